@@ -93,6 +93,12 @@ impl MutableItem {
         key.verify(&encode_signable(seq, &v, salt.as_deref()), &signature)
             .map_err(|_| MutableError::InvalidMutableSignature)?;
 
+        // BEP_0044: the item MUST live under the SHA-1 hash of the public key and the salt,
+        // otherwise anyone could plant (or be served) a validly signed item of another key.
+        if target != MutableItem::target_from_key(key.as_bytes(), salt.as_deref()) {
+            return Err(MutableError::InvalidMutablePublicKey);
+        }
+
         Ok(Self {
             target,
             key: key.to_bytes(),
